@@ -20,10 +20,10 @@ META = {
                   "shape, white-space tolerance at every position, agreement of independent formulations and the published "
                   "test vectors on the specification, and emits each input with the prescribed outputs. Each case is executed "
                   "on encodeBase64/decodeBase64, encodeHex/decodeHex, Url::encode/decode/params/parseQuery and SHA1::hash; "
-                  "for malformed text only 0 <= length <= bound is required. Recorded runs on arrays up to 8 KiB (thorough "
-                  "256 KiB; SHA-1 up to 64 KiB) and on mutated texts are re-computed by TLC.",
+                  "for malformed text only 0 <= length <= bound is required. Recorded runs on arrays up to 32 KiB (thorough "
+                  "1 MiB; SHA-1 up to 128 KiB) and on mutated texts are re-computed by TLC.",
     "level_note": "Bounded: exhaustive only within spec/MC_Codecs_*.cfg; larger inputs are seeded random samples. The property "
-                  "samples lengths to 4 MiB (SHA-1 to 8 MiB); TLC recomputes at most 256 KiB (SHA-1 64 KiB, about 13 ms per "
+                  "samples lengths to 4 MiB (SHA-1 to 8 MiB); TLC recomputes at most 1 MiB (SHA-1 128 KiB, about 10-20 ms per "
                   "block) - larger messages are not decided. Url::encode is not compared with one fixed text: the "
                   "specification accepts any text that a strict percent-decoder maps back to the input and that leaves raw "
                   "only characters the mode allows (RFC 2396 unreserved, plus reserved in URI mode). Memory safety and "
@@ -32,6 +32,14 @@ META = {
 }
 
 HSRC = ["c15_record.cpp"]
+
+
+def _sample(path, needle, limit=900):
+    with open(path) as f:
+        for ln in f:
+            if needle in ln and 60 < len(ln) < limit:
+                return ln.strip()
+    return None
 
 
 def run(ctx):
@@ -44,18 +52,21 @@ def run(ctx):
     ctx.exhaustive = True
     ctx.rule = ("one case per state of MC_Codecs (an input of one codec with the prescribed outputs); non-trivial = non-empty "
                 "input (texts: >= 2 characters); distinct = distinct case lines (hash)")
+    ctx.add_samples([x for x in (_sample(cases, '"k":"sha"'), _sample(cases, '"k":"b64t"'), _sample(cases, '"k":"dict"')) if x])
     ctx.replay(rep, cases, label="R/Codecs", timeout=ctx.pick(600, 3000))
     os.unlink(cases)
     # V: asl's codecs on large / random / mutated inputs, every result recomputed by TLC from Codecs.tla
-    maxkib = ctx.pick(8, 256)
+    maxkib = ctx.pick(32, 1024)
     files = ctx.record(rec, ctx.pick(8, 32), ctx.pick(60, 150), "V/Codecs", extra_args=["--mode", str(maxkib)])
+    if files:
+        ctx.add_samples([x for x in (_sample(files[0], '"e":"junk"', 600),) if x])
     ctx.validate_traces("Trace_Codecs", "Trace_Codecs", files, label="V/Codecs", timeout=ctx.pick(600, 3000), xss="1g", xmx="8g",
                         parallel=ctx.pick(8, 6))
     ctx.extra["largest_array_bytes_recomputed_by_tlc"] = maxkib * 1024
-    ctx.extra["largest_sha1_message_bytes_recomputed_by_tlc"] = min(maxkib, 64) * 1024
+    ctx.extra["largest_sha1_message_bytes_recomputed_by_tlc"] = min(maxkib, 128) * 1024
     ctx.assumptions += [
         "exhaustive within the constants of spec/%s.cfg; beyond them only the recorded random executions apply" % cfg,
-        "SHA-1 of messages above 64 KiB and arrays above %d KiB are not recomputed by TLC" % maxkib,
+        "SHA-1 of messages above %d KiB and arrays above %d KiB are not recomputed by TLC" % (min(maxkib, 128), maxkib),
         "memory errors, leaks and non-termination are observed by ASan/LSan and a 20 s limit per case, not decided by the model",
         "strings are NUL-free (asl::String is a C string); LC_ALL=C (Url::encode uses isalnum)",
         "binding demonstrated on mutated copies of the library (Base64 one-byte tail padding, white-space skipping, SHA-1 "
